@@ -20,6 +20,12 @@ cherab):
   total_user                with integrations: (a) the mutated integrator integrates five test functions to the same value
                             (4 ulp) as a freshly constructed one with the same final settings; (b) the spectrum is judged with
                             the same closed-form oracle and a tolerance derived from the final relative_tolerance
+  seq_steps / seq_bins    : call sequence on ONE object of each of the seven classes (3-8 add_line calls; between calls the
+                            polarisation property, B direction / magnitude, species temperature / flow, n_e/T_e, evaluation
+                            point of a non-uniform plasma, view, radiance, window, beam energy / temperature / direction
+                            change, by mutating the profile state or through the public plasma / beam setters): every step =
+                            the spectrum of a FRESH object with the step's settings (rtol 1e-13) and satisfies the closed-form
+                            oracle (seq_judged:<Class>)
   pol_sum                 : pi + sigma = unpolarised, bin by bin (three calls on identical inputs)
   zero_width              : width-less line => a pre-filled spectrum is returned bit-identical
   adds                    : on a pre-filled spectrum the increment equals what is added to a zero spectrum
@@ -37,6 +43,7 @@ RULE = ("random (line-shape class, radiance, rest wavelength, isotope, species t
         "class parameters: multiplet table, (alpha,beta,gamma), field-dependent Zeeman structure with 0-6 components per "
         "polarisation, Stark (c,a,b) over the tabulated range, MSE ratio functions and beam) x spectral window placed "
         "relative to the documented profile (inside / straddling either edge / outside / just outside / one wide bin / "
+        "bins so fine that the cut-off is 3e8-3e10 bins away / "
         "window much narrower than the line / 1024-4096 bins / Stark grids resolving or not resolving the FWHM / window "
         "over the +-50 FWHM cut-off); a case is non-trivial when radiance > 0 and either a positive-width profile with "
         "> 1e-9 of its mass inside the window was compared bin by bin, or the zero-width clause was evaluated on a "
@@ -66,12 +73,15 @@ ASSUMPTIONS = [
 ]
 ASAN_MODULES = ['cherab.core.model.lineshape.gaussian', 'cherab.core.model.lineshape.multiplet', 'cherab.core.model.lineshape.zeeman', 'cherab.core.model.lineshape.stark', 'cherab.core.model.lineshape.doppler', 'cherab.core.model.lineshape.beam.mse', 'cherab.core.atomic.zeeman', 'cherab.core.math.integrators.integrators1d']
 ASAN = dict(cases=6000, workers=8, timecap=240)
-QUICK = dict(cases=8000, workers=2, timecap=35)
+QUICK = dict(cases=6500, workers=2, timecap=35)
 THOROUGH = dict(cases=600000, workers=16, timecap=600)
 REQUIRED = {"bins_gauss": 20000, "bins_stark": 5000, "total": 1500, "pol_sum": 10000, "zero_width": 60, "adds": 200,
             "judged:GaussianLine": 30, "judged:MultipletLineShape": 30, "judged:ZeemanTriplet": 30,
             "judged:ParametrisedZeemanTriplet": 30, "judged:ZeemanMultiplet": 30, "judged:StarkBroadenedLine": 60,
-            "judged:BeamEmissionMultiplet": 30, "integrator_diff": 300, "bins_stark_user": 5000, "total_user": 60}
+            "judged:BeamEmissionMultiplet": 30, "integrator_diff": 300, "bins_stark_user": 5000, "total_user": 60,
+            "seq_steps": 300, "seq_judged:GaussianLine": 8, "seq_judged:MultipletLineShape": 8, "seq_judged:ZeemanTriplet": 8,
+            "seq_judged:ParametrisedZeemanTriplet": 8, "seq_judged:ZeemanMultiplet": 8, "seq_judged:StarkBroadenedLine": 8,
+            "seq_judged:BeamEmissionMultiplet": 8}
 
 MODELS = ["GaussianLine", "MultipletLineShape", "ZeemanTriplet", "ParametrisedZeemanTriplet", "ZeemanMultiplet",
           "StarkBroadenedLine", "BeamEmissionMultiplet"]
@@ -378,7 +388,111 @@ def gen_case(rng, tier):
         case["integrator"] = _gen_integrator(rng)
         if case["window"]["cls"] not in ("resolved_inside", "resolved_straddle"):
             _place_window(case, rng, tier, force="resolved_inside" if rng.random() < 0.7 else "resolved_straddle")
+    elif rng.random() < 0.09:
+        _gen_sequence(case, rng, tier)
+    elif rng.random() < 0.02:
+        _place_ultrafine(case, rng)
     return case
+
+
+INT_REACH = 2.0e9      # a cut-off more than ~2^31 bins away from the window start (bin-index arithmetic in C ints)
+
+
+def _place_ultrafine(case, rng):
+    """Window at the line centre, so finely binned that the line's cut-off lies 3e8 .. 3e10 bins away."""
+    comps = _nominal_components(case)
+    k = comps[int(rng.integers(len(comps)))]
+    cut = (R.LORENTZIAN_CUTOFF if k[0] == "L" else R.GAUSSIAN_CUTOFF) * k[2]
+    delta = cut / 10 ** rng.uniform(8.5, 10.5)
+    bins = int(rng.integers(4, 201))
+    lo = max(1.0, k[1] + rng.uniform(-2, 2) * k[2] - 0.5 * bins * delta)
+    case["window"] = dict(cls="ultrafine", min=float(lo), max=float(lo + bins * delta), bins=bins)
+
+
+SEQ_FIELDS = ("radiance", "ts", "vel", "ne", "te", "b", "dir", "point", "window", "mse")
+
+
+def _gen_sequence(case, rng, tier):
+    """Call sequence on ONE line-shape object: 3-8 add_line calls, each preceded by 0-2 legal changes of what may change
+    between calls (polarisation property, plasma state at the point, evaluation point, view, radiance, window, beam)."""
+    model = case["model"]
+    family = model in ZEEMAN_FAMILY
+    if rng.random() < 0.6 and case["grad"] == [0.0, 0.0, 0.0]:
+        case["grad"] = [float(c) for c in rng.uniform(-0.3, 0.3, size=3)]
+    eff = {k: v for k, v in case.items()}
+    kinds = ["b-direction", "b-magnitude", "ts", "vel", "electrons", "point", "radiance", "dir", "window"]
+    probs = [0.16, 0.14, 0.10, 0.08, 0.10, 0.12, 0.08, 0.12, 0.10]
+    if family:
+        kinds.append("polarisation")
+        probs.append(0.55)
+    if model == "BeamEmissionMultiplet":
+        kinds.append("beam")
+        probs.append(0.25)
+    probs = np.array(probs) / sum(probs)
+    pol = ["pi", "sigma", "no"][int(rng.integers(3))] if family else "no"
+    steps = [dict(changes=[], set={}, pol=pol, how="holder")]
+    for _ in range(int(rng.integers(2, 8))):
+        n = 1 if rng.random() < 0.7 else 2
+        ch = sorted(set(kinds[int(i)] for i in rng.choice(len(kinds), size=n, p=probs)))
+        st = {}
+        replace = False
+        for c in ch:
+            if c == "polarisation":
+                pol = [q for q in ("pi", "sigma", "no") if q != pol][int(rng.integers(2))]
+            elif c in ("b-direction", "b-magnitude"):
+                b = np.array(eff["b"], dtype=float)
+                bm = float(np.linalg.norm(b))
+                if c == "b-direction" and bm > 0:
+                    v = _rand_unit(rng)
+                    b = v * (bm / float(np.linalg.norm(v)))
+                else:
+                    new = 0.0 if rng.random() < 0.1 else float(10 ** rng.uniform(-3, 1.3))
+                    b = (b / bm if bm > 0 else _rand_unit(rng)) * new
+                    replace = True
+                st["b"] = [float(x) for x in b]
+            elif c == "ts":
+                st["ts"] = 0.0 if rng.random() < 0.06 else float(10 ** rng.uniform(-2, 4))
+                replace = True
+            elif c == "vel":
+                st["vel"] = [0.0, 0.0, 0.0] if rng.random() < 0.2 else [float(x) for x in _rand_unit(rng) * 10 ** rng.uniform(2, 6)]
+                replace = True
+            elif c == "electrons":
+                st["ne"] = float(10 ** rng.uniform(18, 22))
+                st["te"] = float(10 ** rng.uniform(math.log10(0.2), math.log10(50.0)))
+                replace = replace or model == "StarkBroadenedLine"
+            elif c == "point":
+                st["point"] = [float(x) for x in rng.uniform(-1, 1, size=3)]
+            elif c == "radiance":
+                st["radiance"] = float(10 ** rng.uniform(-6, 6))
+            elif c == "dir":
+                d = _rand_unit(rng)
+                bb = np.array(st.get("b", eff["b"]), dtype=float)
+                u = rng.random()
+                if u < 0.15 and np.any(bb != 0):
+                    d = bb / np.linalg.norm(bb)
+                elif u < 0.3 and np.any(bb != 0):
+                    d = _perp(rng, bb)
+                st["dir"] = [float(x) for x in d]
+            elif c == "beam":
+                m = dict(eff["mse"])
+                u = rng.random()
+                if u < 0.4:
+                    m["energy"] = float(10 ** rng.uniform(3.5, 6))
+                elif u < 0.7:
+                    m["temperature"] = 0.0 if rng.random() < 0.1 else float(10 ** rng.uniform(-1, 2.5))
+                else:
+                    m["beam_dir"] = [float(x) for x in _rand_unit(rng)]
+                st["mse"] = m
+                replace = True
+        eff.update(st)
+        if "window" in ch or (replace and rng.random() < 0.75):
+            _place_window(eff, rng, tier)       # also redraws prefill flags, unused in sequences
+            if eff["window"]["bins"] > 1024:
+                eff["window"]["bins"] = 1024
+            st["window"] = dict(eff["window"])
+        steps.append(dict(changes=ch, set=st, pol=pol, how="holder" if rng.random() < 0.5 else "assign"))
+    case["prefill"] = False
+    case["sequence"] = steps
 
 
 N_TEST_FUNCTIONS = 5
@@ -773,6 +887,154 @@ def build(case, polarisation, integrator=None):
     return (lambda s: obj.add_line(rad, point, direction, s)), el.atomic_weight, beam_weight
 
 
+class LiveModel:
+    """ONE line-shape object kept alive over a call sequence.  The plasma profiles are Python callables reading the
+    current state from a holder (state x (1 + g.p), the same expression the fresh objects use), so a step can change the
+    plasma state either by mutating the holder ("holder") or by assigning new profile objects to the plasma through its
+    public setters ("assign"); polarisation is changed through the public property, beam parameters through the setters."""
+
+    def __init__(self, case, pol):
+        from raysect.core import Vector3D
+        from cherab.core import Plasma, Species, Maxwellian, Line, AtomicData, Beam
+        from cherab.core.atomic import elements, ZeemanStructure
+        from cherab.core import model as M
+        self.V = Vector3D
+        self.Maxwellian = Maxwellian
+        h = self.h = dict(ts=case["ts"], vel=list(case["vel"]), ne=case["ne"], te=case["te"], b=list(case["b"]))
+        g = case["grad"]
+        self.g = g
+
+        def scal(key):
+            return lambda x, y, z: h[key] * (1.0 + g[0] * x + g[1] * y + g[2] * z)
+
+        def vec(key):
+            def f(x, y, z):
+                sc = 1.0 + g[0] * x + g[1] * y + g[2] * z
+                v = h[key]
+                return Vector3D(v[0] * sc, v[1] * sc, v[2] * sc)
+            return f
+        self.scal, self.vec = scal, vec
+        el = getattr(elements, case["element"])
+        self.aw = el.atomic_weight
+        self.bw = None
+        plasma = self.plasma = Plasma()
+        plasma.b_field = vec("b")
+        plasma.electron_distribution = Maxwellian(scal("ne"), scal("te"), _vprofile3d([0.0, 0.0, 0.0], case), 9.1093837015e-31)
+        species = Species(el, 0, Maxwellian(_profile3d(1e18, case), scal("ts"), vec("vel"), el.atomic_weight * R.ATOMIC_MASS))
+        plasma.composition.add(species)
+        line = Line(el, 0, (3, 2))
+        ad = AtomicData()
+        lam0 = case["lam0"]
+        model = self.model = case["model"]
+        self.pol = pol
+        self.beam = None
+        if model == "BeamEmissionMultiplet":
+            m = case["mse"]
+            bel = getattr(elements, m["element"])
+            self.bw = bel.atomic_weight
+            beam = self.beam = Beam()
+            beam.plasma = plasma
+            beam.energy = m["energy"]
+            beam.temperature = m["temperature"]
+            beam.element = bel
+
+            def f2(spec):
+                if spec[1] == 0.0 and spec[2] == 0.0:
+                    return spec[0]
+                return lambda ne, e: spec[0] * (ne / 1e19) ** spec[1] * (e / 5e4) ** spec[2]
+
+            def f1(spec):
+                if spec[1] == 0.0 and spec[2] == 0.0:
+                    return spec[0]
+                return lambda ne: spec[0] * (ne / 1e19) ** spec[1] * (5e4 / 5e4) ** spec[2]
+            self.obj = M.BeamEmissionMultiplet(line, lam0, beam, ad, f2(m["sigma_to_pi"]), f1(m["s1_to_s0"]),
+                                               f1(m["pi2_to_pi3"]), f1(m["pi4_to_pi3"]))
+        elif model == "GaussianLine":
+            self.obj = M.GaussianLine(line, lam0, species, plasma, ad)
+        elif model == "MultipletLineShape":
+            self.obj = M.MultipletLineShape(line, lam0, species, plasma, ad, case["multiplet"])
+        elif model == "ZeemanTriplet":
+            self.obj = M.ZeemanTriplet(line, lam0, species, plasma, ad, pol)
+        elif model == "ParametrisedZeemanTriplet":
+            self.obj = M.ParametrisedZeemanTriplet(line, lam0, species, plasma, ad, tuple(case["pzt"]), pol)
+        elif model == "ZeemanMultiplet":
+            def lst(cs):
+                return [((lambda b, w=c["w"]: w[0] + w[1] * b + w[2] * b * b), (lambda b, r=c["r"]: max(0.0, r[0] + r[1] * b)))
+                        for c in cs]
+            zs = case["zs"]
+            self.obj = M.ZeemanMultiplet(line, lam0, species, plasma, ad,
+                                         ZeemanStructure(lst(zs["pi"]), lst(zs["sigma_plus"]), lst(zs["sigma_minus"])), pol)
+        elif model == "StarkBroadenedLine":
+            self.obj = M.StarkBroadenedLine(line, lam0, species, plasma, ad, tuple(case["stark"]), polarisation=pol)
+        else:
+            raise ValueError("unknown model %r" % model)
+
+    def apply(self, eff, pol, how):
+        h = self.h
+        h["ts"], h["vel"] = eff["ts"], list(eff["vel"])       # the Species object is immutable: holder only
+        if how == "assign":
+            # new profile objects through the public plasma setters
+            if h["b"] != list(eff["b"]):
+                h["b"] = list(eff["b"])
+                self.plasma.b_field = self.vec("b")
+            if h["ne"] != eff["ne"] or h["te"] != eff["te"]:
+                h["ne"], h["te"] = eff["ne"], eff["te"]
+                self.plasma.electron_distribution = self.Maxwellian(self.scal("ne"), self.scal("te"),
+                                                                    _vprofile3d([0.0, 0.0, 0.0], dict(grad=self.g)),
+                                                                    9.1093837015e-31)
+        else:
+            h["b"], h["ne"], h["te"] = list(eff["b"]), eff["ne"], eff["te"]
+        if self.beam is not None:
+            m = eff["mse"]
+            if self.beam.energy != m["energy"]:
+                self.beam.energy = m["energy"]
+            if self.beam.temperature != m["temperature"]:
+                self.beam.temperature = m["temperature"]
+        if pol != self.pol:
+            self.obj.polarisation = pol
+            self.pol = pol
+
+    def call(self, eff, spectrum):
+        from raysect.core import Point3D
+        point = Point3D(*eff["point"])
+        direction = self.V(*eff["dir"])
+        if self.beam is not None:
+            m = eff["mse"]
+            return self.obj.add_line(eff["radiance"], Point3D(*m["beam_point"]), point, self.V(*m["beam_dir"]), direction, spectrum)
+        return self.obj.add_line(eff["radiance"], point, direction, spectrum)
+
+
+def run_sequence(case, ctx):
+    """Call sequence on one object: every step's spectrum = the spectrum of a FRESH object built with the step's settings
+    (same arithmetic, so equality to rounding), and satisfies the closed-form oracle."""
+    from raysect.optical import Spectrum
+    model = case["model"]
+    steps = case["sequence"]
+    eff = {k: v for k, v in case.items() if k != "sequence"}
+    ctx.cls("sequence:" + model)
+    live = LiveModel(eff, steps[0]["pol"])
+    for i, step in enumerate(steps):
+        eff.update(step["set"])
+        pol = step["pol"]
+        live.apply(eff, pol, step["how"])
+        win = eff["window"]
+        s = live.call(eff, Spectrum(win["min"], win["max"], win["bins"]))
+        got = np.array(s.samples, dtype=float)
+        delta = s.delta_wavelength
+        call, aw, bw = build(eff, pol)
+        fresh = np.array(call(Spectrum(win["min"], win["max"], win["bins"])).samples, dtype=float)
+        what = "+".join(step["changes"]) if step["changes"] else ("first-call" if i == 0 else "nothing")
+        ctx.mon("seq_steps")
+        ok = ctx.close(got, fresh, "sequence:%s:differs-from-fresh-object:after-%s" % (model, what),
+                       "a line-shape object used for several calls gives a different spectrum than a fresh object "
+                       "constructed with the same settings", rtol=1e-13, atol=1e-14 * float(np.max(np.abs(fresh))) + 1e-300,
+                       monitor="seq_bins", step=i, changes=step["changes"], how=step["how"], polarisation=pol,
+                       previous_polarisation=steps[i - 1]["pol"] if i else None)
+        if ok and i > 0 and np.any(fresh != 0.0):
+            ctx.nontrivial()
+        _run_plain(eff, ctx, live=dict(pol=pol, samples=got, delta=delta, aw=aw, bw=bw))
+
+
 # ------------------------------------------------------------------------------------------------------------------
 # judging
 # ------------------------------------------------------------------------------------------------------------------
@@ -794,6 +1056,18 @@ def _tolerances(comps, rad, delta, lam0):
     tol_bin += 1e-13 * wsum * rad / delta
     tol_tot += 1e-11 * wsum * rad
     return tol_bin, tol_tot
+
+
+def _index_overflow(comps, lo, delta):
+    """Name of the adder whose bin-range arithmetic leaves the C int range for this window, or ''."""
+    out = ""
+    for kind, centre, width, weight, split in comps:
+        cut = (R.LORENTZIAN_CUTOFF if kind == "L" else R.GAUSSIAN_CUTOFF) * width
+        if max(abs(centre + cut - lo), abs(centre - cut - lo)) / delta >= INT_REACH:
+            if kind == "L":
+                return "add_lorentzian_line"
+            out = "add_gaussian_line"
+    return out
 
 
 def _band_check(ctx, got, lower, upper, tol, key, what, monitor, **detail):
@@ -821,14 +1095,23 @@ def _band_check(ctx, got, lower, upper, tol, key, what, monitor, **detail):
 
 
 def run_case(case, ctx):
+    if case.get("sequence"):
+        return run_sequence(case, ctx)
+    return _run_plain(case, ctx)
+
+
+def _run_plain(case, ctx, live=None):
+    """Judge one configuration.  live=None: fresh objects, all polarisation modes, all monitors.  live=dict(pol, samples,
+    delta, aw, bw): judge the spectrum a long-lived object produced for this configuration with the closed-form oracle."""
     from raysect.optical import Spectrum
 
     model = case["model"]
     win = case["window"]
     rad = case["radiance"]
     lam0 = case["lam0"]
-    ctx.cls(model)
-    ctx.cls("window:" + win["cls"])
+    if live is None:
+        ctx.cls(model)
+        ctx.cls("window:" + win["cls"])
     family = model in ZEEMAN_FAMILY
     pols = ["pi", "sigma", "no"] if family else ["no"]
 
@@ -836,12 +1119,17 @@ def run_case(case, ctx):
     got = {}
     aw = bw = None
     delta = None
-    for pol in pols:
-        call, aw, bw = build(case, pol, integ)
-        s = Spectrum(win["min"], win["max"], win["bins"])
-        s = call(s)
-        got[pol] = np.array(s.samples, dtype=float)
-        delta = s.delta_wavelength
+    if live is not None:
+        pols = [live["pol"]]
+        got[live["pol"]] = live["samples"]
+        aw, bw, delta = live["aw"], live["bw"], live["delta"]
+    else:
+        for pol in pols:
+            call, aw, bw = build(case, pol, integ)
+            s = Spectrum(win["min"], win["max"], win["bins"])
+            s = call(s)
+            got[pol] = np.array(s.samples, dtype=float)
+            delta = s.delta_wavelength
 
     ref = components(case, aw, bw)
     info = ref["info"]
@@ -849,6 +1137,13 @@ def run_case(case, ctx):
     tag = ":B=0" if (b0 and family) else ""
 
     # ---- zero-width clause --------------------------------------------------------------------------------------
+    if ref["zero_width"] and live is not None:
+        p = live["pol"]
+        if ctx.check(not np.any(got[p] != 0.0), "%s:zero-width-adds:%s" % (model, p),
+                     "a width-less line added non-zero samples to an empty spectrum", monitor="zero_width",
+                     max_added=float(np.max(np.abs(got[p])))) and rad > 0:
+            ctx.nontrivial()
+        return
     if ref["zero_width"]:
         ctx.cls("zero-width")
         rs = np.random.default_rng(case["prefill_seed"])
@@ -908,7 +1203,7 @@ def run_case(case, ctx):
 
     # ---- per-bin profile and window total ---------------------------------------------------------------------------
     if not skip_branch:
-        ctx.mon("judged:" + model)
+        ctx.mon("judged:" + model if live is None else "seq_judged:" + model)
         for pol in pols:
             P = prof[pol]
             comps = parts[pol]
@@ -918,6 +1213,9 @@ def run_case(case, ctx):
             lf = rad * P["lor_full"]
             frac = P["frac_gauss"] + P["frac_lor_full"]
             detail = dict(polarisation=pol, window=win["cls"], delta=delta, **{k: v for k, v in info.items()})
+            ovf = _index_overflow(comps, win["min"], delta)
+            if ovf:
+                ctx.cls("bin-index-beyond-int32:" + ovf)
             if has_l:
                 key = "%s:bin-profile:%s%s" % (model, pol, tag) if resolved else \
                     "%s:lorentzian-bin-quadrature-unresolved" % model
@@ -941,6 +1239,11 @@ def run_case(case, ctx):
                             "from radiance x bin-average of the documented profile by more than the integrator's tolerance")
                     mon_b, mon_t = "bins_stark_user", "total_user"
                     detail = dict(detail, integrator_final=fin, lor_rtol=lor_rtol)
+                if ovf:
+                    mon_b, mon_t = "bins_index_overflow", "total_index_overflow"
+                    key = keyt = "%s:bin-index-int32-overflow" % ovf
+                    what = ("the line's cut-off lies more than 2^31 bins from the window start: the bin range computed in C ints "
+                            "overflows and the samples differ from radiance x bin-average of the documented profile")
                 tol = tol_bin + lor_rtol * lf + 1e-13 * rad / delta
                 _band_check(ctx, got[pol], g + lt, g + lf, tol, key, what, mon_b, **detail)
                 lo_t = rad * (P["frac_gauss"] + P["frac_lor_trunc"])
@@ -950,25 +1253,27 @@ def run_case(case, ctx):
                             "sum(samples) x delta differs from radiance x fraction of the profile inside the window",
                             mon_t, fraction=float(frac), **detail)
             else:
-                ctx.close(got[pol], g, "%s:bin-profile:%s%s" % (model, pol, tag),
-                          "samples differ from radiance x bin-average of the documented profile",
-                          atol=tol_bin, monitor="bins_gauss", **detail)
-                ctx.close(float(got[pol].sum() * delta), rad * P["frac_gauss"], "%s:window-total:%s%s" % (model, pol, tag),
+                ctx.close(got[pol], g, ("%s:bin-index-int32-overflow" % ovf) if ovf else "%s:bin-profile:%s%s" % (model, pol, tag),
+                          "samples differ from radiance x bin-average of the documented profile" +
+                          (" (the line's cut-off lies more than 2^31 bins from the window start)" if ovf else ""),
+                          atol=tol_bin, monitor="bins_index_overflow" if ovf else "bins_gauss", **detail)
+                ctx.close(float(got[pol].sum() * delta), rad * P["frac_gauss"],
+                          ("%s:bin-index-int32-overflow" % ovf) if ovf else "%s:window-total:%s%s" % (model, pol, tag),
                           "sum(samples) x delta differs from radiance x fraction of the profile inside the window",
-                          atol=tol_tot, monitor="total", fraction=float(frac), **detail)
+                          atol=tol_tot, monitor="total_index_overflow" if ovf else "total", fraction=float(frac), **detail)
             if rad > 0 and frac > 1e-9:
                 ctx.nontrivial()
         if not ref["complete"]:
             ctx.skip("zeeman structure with an empty/all-zero polarisation list: total-radiance clause not judged")
 
     # ---- pi + sigma = unpolarised --------------------------------------------------------------------------------------
-    if family:
+    if family and live is None:
         ctx.close(got["pi"] + got["sigma"], got["no"], "%s:pi+sigma!=unpolarised%s" % (model, tag),
                   "pi- and sigma-polarised spectra do not add up to the unpolarised spectrum", rtol=1e-12,
                   atol=1e-13 * float(np.max(np.abs(got["no"]))) + 1e-300, monitor="pol_sum")
 
     # ---- the model *adds* to the spectrum --------------------------------------------------------------------------------
-    if case["prefill"]:
+    if case["prefill"] and live is None:
         pol = pols[case["prefill_seed"] % len(pols)]
         rs = np.random.default_rng(case["prefill_seed"])
         scale = float(np.max(np.abs(got[pol]))) or (rad / delta)
